@@ -132,7 +132,12 @@ def run(c, rng, build, nmut):
     # ---- encoder correspondence: every representable stored unit, both forms of the document
     enc_cases, skipped = [], 0
     for i in keep:
+        if rows[i].get("doc_plain_error"):
+            c.violation("unit:plain-dict-not-json", f"Unit.__json__() of a registered unit holds a value a plain JSON serialiser (pydantic's, the SQL form) cannot write: {rows[i]['doc_plain_error']}",
+                        {"unit": {k: rows[i][k] for k in ("p", "f", "d", "name")}, "how": "json.dumps(unit.__json__()) without the library's encoder"})
+    for i in keep:
         for form in ("doc", "doc_plain"):
+            if rows[i].get(form) is None: continue
             try:
                 enc_cases.append(f"({cnat(hmap[i])}, {jterm(rows[i][form], names)})")
             except OutOfModel:
